@@ -286,7 +286,7 @@ func TestC18(t *testing.T) {
 	evid.Main(t, "C18", func(rec *evid.Rec) {
 		rec.Rule("positions: battery/x-ray constructions, dense synthetic placements, suite/bench roots and playouts; for EVERY legal move (captures, quiets, en passant, promotions, castling) the set S of exchange balances is computed by a recursive minimax on the destination square (piece values read from heur.PieceValues; least valuable attacker, all tie-breaks explored; attackers recomputed by ray walking on the shrinking occupancy so x-rays join; side may stop; king captures only if no enemy attacker remains; pins and recapture promotions ignored; en passant removes the captured pawn). Thresholds: every v in S and v+-1, the grid {0,+-1,+-100,+-300,+-500,+-900,+-1300}, 3 random in [-1400,1400]. Oracle: some v in S has SEE(t) == (v >= t) for all tested t; monotonicity asserted directly. Evaluations count (position, move, threshold) triples. Non-trivial = >=2 attackers on the square, an x-ray joins, or |S|>1; distinct by (position, move)")
 		rec.Assume("reference exchange minimax written in the harness (checks/c18), piece values read from the engine")
-		rec.Rapid(t, "see", evid.Pick(80000, 1500000), func(t *rapid.T) {
+		rec.Rapid(t, "see", evid.Pick(80000, 20000000), func(t *rapid.T) {
 			var p refchess.Pos
 			label := ""
 			switch gen.Draw(t, 0, 3, "family") {
